@@ -476,9 +476,6 @@ func compareWeak(got *implOut, v *view) []mismatch {
 	if got.next < v.R {
 		ms = append(ms, mismatch{"arbitrary:next-offset-below-requested", fmt.Sprintf("next offset %d below the requested offset %d", got.next, v.R)})
 	}
-	if n := len(got.recs); n > 0 && got.next <= got.recs[n-1].Offset {
-		ms = append(ms, mismatch{"arbitrary:next-offset-not-after-returned-records", fmt.Sprintf("next offset %d is not after the last returned offset %d", got.next, got.recs[n-1].Offset)})
-	}
 	return ms
 }
 
@@ -904,9 +901,9 @@ func main() {
 		"Sweep 1 (strong oracle): every single-unit response at start offsets 0 and 5, every ordered pair of the multi-unit catalogue (none + one codec per kind) " +
 		"[thorough: also every ordered triple of the uncompressed+wrapper catalogue and every ordered pair of the all-codec catalogue with inter-unit gap 0 and 2], " +
 		"x truncation of the records bytes at EVERY byte boundary x requested offset in [first-1,last+1] x KeepControlRecords x isolation level x every permutation " +
-		"of every broker-consistent aborted list (+ one irrelevant entry). Pairs and singles: full cross product; triples and all-codec pairs: all views at the key cuts " +
-		"(unit ends, one byte before, full) and base views at every other byte. Sweep 2 (strong oracle): every byte string of length 1..2 appended to every byte-prefix " +
-		"of single-unit responses. Sweep 3 (weak oracle: no panic, offsets strictly increasing and >= requested, next offset >= requested and past the returned records): " +
+		"of every broker-consistent aborted list (+ one irrelevant entry). Singles [thorough: and the pairs of the multi-unit catalogue]: full cross product; other responses: all views at the key cuts " +
+		"(unit ends, one byte before, full length) and the base views (every requested offset x keep x {read_uncommitted, read_committed with the canonical list and its reverse}) at every other byte. Sweep 2 (strong oracle): every byte string of length 1..2 appended to every byte-prefix " +
+		"of single-unit responses. Sweep 3 (weak oracle: no panic, offsets strictly increasing and >= requested, next offset >= requested): " +
 		"every substitution from {00,01,7f,80,ff} at every byte of every single-unit response [thorough: and every pair of the triples catalogue], CRC validation on and off. " +
 		"distinct_nontrivial counts distinct (response, complete units, view, outcome) classes at the key cuts plus distinct outcomes of the arbitrary-byte sweeps.")
 	r.Assume("the harness's reference decoder/encoder (package reflog) implements the Kafka message format documentation (record batch v2, message v0/v1, KIP-32 wrapper rules)",
